@@ -16,13 +16,36 @@ NOT_APPLICABLE = {
     'C19': 'no JavaScript symbolic executor is available offline and rbql.js is an async eval-based engine that a kernel translator cannot lower (DESIGN.md C19)',
 }
 TB = 'Trusted: CrossHair 0.0.110 models of str/list/dict/re, z3, CPython 3.12.1; reference oracles in vf/refmodel (self-validated on the repository\'s expected test vectors each run). '
+def _c(text, ref, note, technique='CrossHair symbolic execution of the real rbql_engine.query_table (z3), differential against a relational reference interpreter'):
+    return {'text': text, 'design_ref': 'DESIGN.md section 6, ' + ref, 'note': TB + note, 'technique': technique}
+
+
+BMC = 'Bounded model checking: concrete query family x symbolic data; every obligation is CrossHair/z3 "confirmed over all paths" of the real code for all tables of the stated shape, or a replayed counterexample. '
 CLAIMED = {
+    'C01': _c(BMC + 'SELECT/WHERE/star/EXCEPT/UNNEST results equal the reference for every table within bounds.', 'C01',
+              'Bounds: <=3 rows x <=3 fields, cells str len<=2 or None, join table <=2 rows (quick: 2-3 rows). Outside: symbolic query text, larger tables, JS twin.'),
+    'C02': _c(BMC + 'sort (stable, DESC = reverse), dedup, multiplicity, truncation and input-consumption counts equal the reference.', 'C02',
+              'Bounds: <=4 int rows (quick 3), n in 0..rows+1, one str shard, unbounded cyclic iterator for the termination clause. Outside: float keys, more rows, JS twin.'),
+    'C03': _c(BMC + 'one exact row per group in key order for COUNT/MIN/MAX/SUM/ARRAY_AGG/ANY_VALUE/odd MEDIAN; AVG/VARIANCE by exact accumulator lemmas + finaliser formula lowered from the source AST to z3/cvc5 (reals).', 'C03',
+              'Bounds: <=4 rows, int or 1-2 digit string cells, 1-2 keys. Outside: float cells, IEEE rounding of AVG/VARIANCE/even MEDIAN (end-to-end float equality is bug-hunting only).',
+              'CrossHair symbolic execution (z3) + direct AST->SMT encoding of get_final (z3 and cvc5)'),
+    'C04': _c(BMC + 'every join kind x key spelling x downstream shape equals the nested-loop expansion reference.', 'C04',
+              'Bounds: |A|,|B| <= 3 (quick 2x2), int keys (0..1 where the key is embedded in a message), one str-key shard. HashJoinMap defaultdict replaced by an equality map under symbolic execution. Outside: bigger tables, JS twin.'),
+    'C05': _c(BMC + 'UPDATE emits each record once with only assigned fields changed, RHS on original values, NU, missing-field error.', 'C05',
+              'Bounds: <=3 rows x 1..3 fields ragged, cells str len<=2/None, 1-3 assignments, INNER/LEFT JOIN 2x2. Outside: JS twin (known to alias rows).'),
+    'C06': _c(BMC + 'list sources deep-equal their snapshots after the query and after in-place mutation of every output record; only [A-Za-z0-9_]* identifiers reach the (fake) sqlite connection for every Unicode name within bounds.', 'C06',
+              'Claimed clauses: Python lists, sqlite identifier. NOT claimed (C extensions/OS): pandas dataframes, sqlite file, CSV files on disk, rbql-js arrays. Names without LF, len<=4 (quick)/5.'),
+    'C07': _c(BMC + 'output header width and names follow the documented rule for symbolic distinct header names.', 'C07',
+              'Bounds: 2-3 column headers, symbolic names len<=2 (concrete hostile names for a[...] queries: names are embedded in generated code), 2 rows. Outside: pandas writer, JS twin.'),
     'C11': {
         'text': 'Bounded model checking: for every Unicode line up to the stated length the real splitters (and the reader on a one-line stream) equal an independent dialect scanner, decided by z3 over all paths of the real code (CrossHair "Confirmed over all paths" per shard).',
         'design_ref': 'DESIGN.md section 6, C11',
         'note': TB + 'Bounds: line length <= 5 (quick) / <= 7 (thorough), single-character delimiters , ; TAB | SPACE. Outside: longer lines, multi-character delimiters, JS twin.',
         'technique': 'symbolic execution of csv_utils/rbql_csv with z3 (CrossHair), differential against reference dialect scanner',
     },
+    'C17': _c(BMC + 'like_to_regex structure for every pattern <=5 chars (symbolic) and LIKE == textbook matcher for every single-line text <=5 chars on all wildcard/literal shapes <=4.', 'C17',
+              'Bounds as stated; re.escape stubbed by a homomorphic marker in the structure lemma only. Outside: multi-line texts, JS twin.',
+              'CrossHair symbolic execution of like_to_regex / LIKE via query_table (z3), differential against dynamic-programming matcher'),
 }
 for k in CLAIMED:
     ENGINES[0]['serves_properties'].append(k)
